@@ -1,6 +1,7 @@
 """Copy confirmed seeded mutations from the sub-agents' scratch worktrees into /verif/seeded/."""
 import json, os, re, shutil, sys, glob
-ROOT = "/tmp/seed"
+ROOT = os.environ.get("SEED_ROOT", "/tmp/seed")
+SUFFIX = os.environ.get("SEED_SUFFIX", "")
 OUT = "/verif/seeded"
 conf = {}
 for f in glob.glob(f"{ROOT}/confirm_*.log"):
@@ -15,7 +16,7 @@ for f in glob.glob(f"{ROOT}/confirm_*.log"):
 for (p, m), rec in sorted(conf.items()):
     src = f"{ROOT}/{p}/_seed/{m}"
     ok = rec["clean_exit"] == 0 and rec["mutated_exit"] != 0 and rec["tests_exit"] == 0 and "233 passed" in rec["tests"]
-    sid = f"{p}-{m}"
+    sid = f"{p}-{SUFFIX}{m}"
     if not ok:
         print("NOT CONFIRMED", sid, rec)
         continue
